@@ -330,7 +330,7 @@ func loggerPart(r *seq.Run, tier string) {
 		kind string
 		lvl  zerolog.Level
 	}
-	ops := []op{{"ev", zerolog.DebugLevel}, {"ev", zerolog.InfoLevel}, {"ev", zerolog.ErrorLevel}, {"ev", zerolog.Disabled}, {"ev", zerolog.NoLevel}, {"write", 0}, {"print", 0}, {"dis-on", 0}, {"dis-off", 0}, {"glob", zerolog.InfoLevel}, {"glob", zerolog.TraceLevel}, {"tick", 0}}
+	ops := []op{{"ev", zerolog.DebugLevel}, {"ev", zerolog.InfoLevel}, {"ev", zerolog.ErrorLevel}, {"ev", zerolog.Disabled}, {"ev", zerolog.NoLevel}, {"ev", zerolog.FatalLevel}, {"ev", zerolog.PanicLevel}, {"write", 0}, {"print", 0}, {"dis-on", 0}, {"dis-off", 0}, {"glob", zerolog.InfoLevel}, {"glob", zerolog.TraceLevel}, {"tick", 0}}
 	L := 5
 	if tier == "thorough" {
 		L = 7
